@@ -32,6 +32,7 @@ K_RENDER = 'render-stage-error-body-empty'
 K_FORM = 'error-body-via-form-handlers'
 K_XMLCR = 'xml-error-cr-not-preserved'
 K_STALE = 'handler-written-body-survives-reraise'
+K_SURR = 'json-error-body-lone-surrogate-escapes'
 
 CUSTOM_TYPE = 'application/x-c04'
 BOOM_TYPE = 'application/x-c04-boom'
@@ -205,12 +206,26 @@ def falcon_root(cls):
     return None
 
 
+def build_class(name, bases, ns, advertised=None):
+    """type(name, bases, ns); `advertised`: the instances' __class__ attribute reports that class instead of their
+    real type (what proxy/wrapper exceptions and unittest.mock specs do).  raise/except, type(ex) and therefore
+    "the exception's MRO" are not affected by it."""
+    ns = dict(ns)
+    if advertised is not None:
+        ns['__class__'] = property(lambda self, _c=advertised: _c)
+    return type(name, bases, ns)
+
+
+def real_isinstance(obj, cls):
+    return issubclass(type(obj), cls)
+
+
 def well_formed(inst):
     """the framework base __init__ really ran: the attributes falcon's default handlers read exist.
     (a builtin between two cooperative falcon __init__s in the MRO swallows the super() call)"""
-    if isinstance(inst, falcon.HTTPStatus):
+    if real_isinstance(inst, falcon.HTTPStatus):
         names = ('status', 'headers', 'text')
-    elif isinstance(inst, falcon.HTTPError):
+    elif real_isinstance(inst, falcon.HTTPError):
         names = ('status', 'title', 'description', 'headers', 'link', 'code')
     else:
         return True
@@ -228,11 +243,13 @@ class Program:
         self.handle_owner = {}
         self.reg_count = {}
         asgi = self.stack == 'asgi'
-        for name, bases, has_handle in spec.get('classes') or []:
+        for ent in spec.get('classes') or []:
+            name, bases, has_handle = ent[0], ent[1], ent[2]
             ns = {}
             if has_handle:
                 ns['handle'] = staticmethod(self.make_handler('handle:' + name))
-            self.classes[name] = type(name, tuple(self.resolve(b) for b in bases), ns)
+            adv = self.resolve(ent[3]) if len(ent) > 3 and ent[3] else None
+            self.classes[name] = build_class(name, tuple(self.resolve(b) for b in bases), ns, adv)
             if has_handle:
                 self.handle_owner[self.classes[name]] = 'handle:' + name
         mws, res, sink = (build_asgi_parts if asgi else build_wsgi_parts)(self.ctl)
@@ -565,6 +582,10 @@ def compare_fields(got, info, xml=False, skip_link=False):
     return bad
 
 
+def has_surrogate(s):
+    return any(0xD800 <= ord(ch) <= 0xDFFF for ch in s)
+
+
 def info_strings(info):
     out = []
     for k in ('title', 'description', 'href_text'):
@@ -631,9 +652,20 @@ class Checker:
         handler_events = [e for e in log if e[0] == 'handler']
         form_ctx = (
             essence((hvalues(out, 'content-type') or [''])[0]) == M.MULTIPART
-            or any(isinstance(ev[2], NotImplementedError) and all(ev[2] is not x for x in mine)
+            or any(real_isinstance(ev[2], NotImplementedError) and all(ev[2] is not x for x in mine)
                    for ev in handler_events)
-            or (isinstance(out.get('exc'), NotImplementedError) and all(out['exc'] is not x for x in mine)))
+            or (out.get('exc') is not None and real_isinstance(out['exc'], NotImplementedError)
+                and all(out['exc'] is not x for x in mine)))
+        # same finding, other stock form handler: the urlencoded serializer cannot encode an unpaired surrogate, so
+        # an error carrying one that is negotiated to application/x-www-form-urlencoded fails at render time
+        # (signature: a UnicodeEncodeError nobody in the harness raised reaches a handler / that Content-Type + 500)
+        specs_ = [e[3] for e in logged] + [e[2] for e in log if e[0] == 'hraise']
+        if any(has_surrogate(str(sp_.get(k_) or '')) for sp_ in specs_ for k_ in ('title', 'description', 'href_text')):
+            rec.count('req.error_with_unpaired_surrogate')
+            if M.URLENC in cands and (
+                    any(type(ev[2]) is UnicodeEncodeError and all(ev[2] is not x for x in mine) for ev in handler_events)
+                    or (essence((hvalues(out, 'content-type') or [''])[0]) == M.URLENC and out.get('status') == 500)):
+                form_ctx = True
         # ---- handler selection
         expected_events = []
         hids = []
@@ -654,13 +686,15 @@ class Checker:
                     rec.count('sel.reregistered_class')
                 if hid.startswith('handle:'):
                     rec.count('sel.handle_staticmethod')
+            if inst is not None and inst.__class__ is not cls:
+                rec.count('sel.advertised_class_differs')
             if len(cls.__mro__) > len(set(cls.__mro__)) or sum(1 for c in cls.__mro__ if len(c.__bases__) > 1):
                 rec.count('sel.multiple_inheritance')
         actual_events = [e for e in log if e[0] == 'handler']
         sel_ok = len(actual_events) == len(expected_events)
         if sel_ok:
             for (hid, cls, inst), ev in zip(expected_events, actual_events):
-                if ev[1] != hid or (inst is not None and ev[2] is not inst) or not isinstance(ev[2], cls):
+                if ev[1] != hid or (inst is not None and ev[2] is not inst) or not real_isinstance(ev[2], cls):
                     sel_ok = False
         if not sel_ok:
             known = None
@@ -686,6 +720,12 @@ class Checker:
             rec.count('mon.no_escape.warnings_as_errors')
         if out['exc'] is not None or out['outcome'] != 'done':
             known = K_FORM if form_ctx else None
+            ex_ = out['exc']
+            if known is None and type(ex_) is UnicodeEncodeError and isinstance(ex_.object, str) \
+                    and ex_.object.lstrip()[:1] in ('{', '[') and has_surrogate(ex_.object[ex_.start:ex_.end]):
+                # narrow: the str handed to the UTF-8 encoder is a JSON document (the stock JSON handler dumps with
+                # ensure_ascii=False and then encodes strictly) and the offending code point is a lone surrogate
+                known = K_SURR
             self.report('exception-escaped', rq, {'exc': repr(out['exc']), 'outcome': out['outcome'],
                                                   'raised': [(c.__name__, s) for c, _, _, s, _ in raises]}, known)
             return
@@ -871,6 +911,11 @@ class Checker:
             return
         if method == 'HEAD':
             rec.count('body.not_applicable')
+            return
+        if not info['loose'] and any(has_surrogate(x) for x in info_strings(info)):
+            # an unpaired surrogate has no UTF-8 form and no XML character reference: no representation can be
+            # faithful, so only "handled, status, headers, Vary" (all checked above) is demanded
+            rec.count('body.unencodable_code_points')
             return
         body = out['body']
         ctype = essence((hvalues(out, 'content-type') or [''])[0])
@@ -1107,6 +1152,9 @@ SIMPLE_ERRORS = [n for n in M.ERROR_STATUS if n not in (
     'MultipartParseError')]
 
 
+SURROGATE_STRS = ['\ud83d', 'a\udfffb', '\ud800\ud800', 'ok \udc00 end', '\udbff<&>']
+
+
 def rand_error_fields(rng, es, allow_title=True):
     if allow_title and rng.random() < 0.7:
         es['title'] = rand_str(rng, 4)
@@ -1115,6 +1163,10 @@ def rand_error_fields(rng, es, allow_title=True):
         es['description'] = rand_str(rng)
     elif r < 0.8:
         es['description'] = None
+    if rng.random() < 0.04:
+        # str values that are not well-formed Unicode (e.g. json.loads('"\\ud83d"') of a truncated emoji escape)
+        es['title' if (allow_title and rng.random() < 0.5) else 'description'] = \
+            rand_str(rng, 2) + rng.choice(SURROGATE_STRS)
     if rng.random() < 0.5:
         es['code'] = rng.choice([0, 1, -1, 7, 404, 2 ** 31, 2 ** 70, rng.randint(-1000, 100000)])
     if rng.random() < 0.5:
@@ -1194,7 +1246,8 @@ def families(classes_spec):
     """class name -> name of the falcon class whose __init__ builds its instances (None: plain)."""
     made = {}
     out = {}
-    for name, bases, _ in classes_spec:
+    for ent in classes_spec:
+        name, bases = ent[0], ent[1]
         bs = tuple(made[b] if b in made else BUILTIN_ROOTS[b] if b in BUILTIN_ROOTS else getattr(falcon, b)
                    for b in bases)
         made[name] = type(name, bs, {})
@@ -1390,7 +1443,11 @@ def rand_classes(rng):
             continue        # e.g. a builtin between two cooperative falcon __init__s
         made[name] = cls
         depth[name] = 1 + max([depth.get(b, 0) for b in bases])
-        specs.append([name, bases, rng.random() < 0.2])
+        ent = [name, bases, rng.random() < 0.2]
+        if rng.random() < 0.15:
+            # the instances advertise another class through __class__
+            ent.append(rng.choice([s_[0] for s_ in specs] + REG_ROOT_TARGETS))
+        specs.append(ent)
     return specs
 
 
@@ -1516,7 +1573,10 @@ def rand_program(rng, stack):
 
 E1_CLASSES = [['A', ['Exception'], False], ['B', ['A'], False], ['C', ['A'], False], ['D', ['B', 'C'], False],
               ['E', ['HTTPError'], False], ['F', ['D', 'E'], False], ['G', ['HTTPNotFound'], False],
-              ['H', ['HTTPStatus'], False], ['V', ['ValueError', 'A'], False]]
+              ['H', ['HTTPStatus'], False], ['V', ['ValueError', 'A'], False],
+              # instances whose __class__ attribute advertises a class outside their MRO
+              ['Q', ['B'], False, 'C'], ['R', ['A'], False, 'HTTPNotFound'], ['EA', ['E'], False, 'A'],
+              ['HA', ['H'], False, 'HTTPError'], ['W', ['Exception'], False, 'H']]
 E1_TARGETS = ['A', 'B', 'C', 'D', 'E', 'F', 'G', 'H', 'V', 'Exception', 'HTTPError', 'HTTPNotFound', 'HTTPStatus']
 E1_RAISES = [
     {'cls': 'A'}, {'cls': 'B'}, {'cls': 'C'}, {'cls': 'D'},
@@ -1527,6 +1587,8 @@ E1_RAISES = [
     {'cls': 'V'}, {'cls': 'ValueError'}, {'cls': 'KeyError'},
     {'cls': 'HTTPNotFound', 'description': 'plain 404'}, {'cls': 'HTTPForbidden'},
     {'cls': 'HTTPStatus', 'status': 201, 'headers': None, 'text': 'created'},
+    {'cls': 'Q'}, {'cls': 'R'}, {'cls': 'EA', 'status': 409, 'title': 'tEA'},
+    {'cls': 'HA', 'status': 203, 'headers': None, 'text': 'textHA'}, {'cls': 'W'},
 ]
 
 
@@ -1692,6 +1754,14 @@ def e4_requests():
         for acc in E4_ACCEPTS:
             out.append({'method': 'GET', 'accept': acc,
                         'plan': [['responder', None, {'cls': 'HTTPGone', 'code': c}]]})
+    # strings with unpaired surrogates: every text field x every representation (incl. none acceptable)
+    for s in SURROGATE_STRS:
+        for f in ('title', 'description', 'href_text'):
+            for acc in E4_ACCEPTS + [None, 'application/xml', 'image/png', 'application/vnd.c04+xml']:
+                es = {'cls': 'HTTPGone', 'title': 'T', 'description': 'D', 'href': 'http://x/', 'href_text': 'HT'}
+                es[f] = s
+                out.append({'method': 'GET', 'accept': acc, 'plan': [['responder', None, es]]})
+                out.append({'method': 'GET', 'accept': acc, 'plan': [['mw0.resp', None, es]]})
     for st in E4_STATUS:
         for acc in E4_ACCEPTS:
             out.append({'method': 'GET', 'accept': acc, 'plan': [['before', None, {'cls': 'HTTPError', 'status': st}]]})
@@ -1835,11 +1905,12 @@ def run(rec):
     # ---- E4: hostile strings in every field, every representation
     e4 = e4_requests()
     for stack in ('wsgi', 'asgi'):
-        mine = [r for r in e4 if (idx := idx + 1) % n == me]   # noqa
-        base = {'stack': stack, 'cfg': {'xml': True, 'custom_media': True, 'independent': True}, 'classes': [],
-                'handlers': {}, 'steps': []}
-        chunked_program(rec, base, mine, size=200)
-        rec.count('e4.requests', len(mine))
+        for jh in ('default', 'custom'):
+            mine = [r for r in e4 if (idx := idx + 1) % n == me]   # noqa
+            base = {'stack': stack, 'cfg': {'xml': True, 'custom_media': True, 'independent': True, 'json_handler': jh},
+                    'classes': [], 'handlers': {}, 'steps': []}
+            chunked_program(rec, base, mine, size=200)
+            rec.count('e4.requests', len(mine))
     # ---- E5: an error handler writes text/bytes/data/media to the response, then raises HTTPStatus/HTTPError
     for stack in ('wsgi', 'asgi'):
         base, reqs = e5_program(stack)
@@ -1892,6 +1963,8 @@ def run(rec):
         'chain.wrote_media_then_raise_status': 150, 'chain.wrote_text_then_raise_http': 40,
         'mon.no_escape.accept_with_obs_text_octets': 1500, 'mon.no_escape.warnings_as_errors': 3000,
         'env.warnings_as_errors_programs': 10,
+        'body.unencodable_code_points': 150, 'req.error_with_unpaired_surrogate': 500,
+        'sel.advertised_class_differs': 1000,
         'cfg.single_candidate': 800, 'cfg.few_candidates': 1500, 'cfg.stock_or_more_candidates': 4000,
         'vary.error_defines_members': 500, 'vary.set_before_raise': 550, 'negotiation.mixed_case_decided': 300,
     }
